@@ -37,6 +37,14 @@ func (sp *StakePool) GetKey() datastore.Key {
 	return stakepool.StakePoolKey(spenum.Authorizer, sp.Settings.DelegateWallet)
 }
 
+// Save stores the authorizer stake pool in the layout getStakePool reads back. Without this override the
+// promoted stakepool.StakePool.Save, which StakePoolLock and StakePoolUnlock call, stores the embedded struct
+// alone, and the record then decodes as an empty pool.
+func (sp *StakePool) Save(providerType spenum.Provider, providerID string, balances cstate.StateContextI) error {
+	_, err := balances.InsertTrieNode(stakepool.StakePoolKey(providerType, providerID), sp)
+	return err
+}
+
 // save the stake pool
 func (sp *StakePool) save(sscKey, providerID string, balances cstate.StateContextI) (err error) {
 	_, err = balances.InsertTrieNode(stakepool.StakePoolKey(spenum.Authorizer, providerID), sp)
